@@ -33,6 +33,20 @@ Proof.
       rewrite <- (firstn_skipn (S i) l) at 2. rewrite app_nth2 by (rewrite firstn_length; lia).
       rewrite firstn_length. f_equal. lia.
 Qed.
+Lemma nth_skipn' n (l : list A) k d : nth k (skipn n l) d = nth (n + k) l d.
+Proof.
+  revert l. induction n as [|n IH]; intro l; [reflexivity|].
+  destruct l as [|x l]; [destruct k; reflexivity|]. cbn [skipn plus nth]. apply IH.
+Qed.
+Lemma nth_firstn' n (l : list A) k d : k < n -> nth k (firstn n l) d = nth k l d.
+Proof.
+  revert l k. induction n as [|n IH]; intros l k H; [lia|].
+  destruct l as [|x l]; [reflexivity|]. destruct k as [|k]; [reflexivity|]. cbn [firstn nth]. apply IH. lia.
+Qed.
+Lemma nth_repeat' (a : A) m k d : k < m -> nth k (repeat a m) d = a.
+Proof.
+  revert k. induction m as [|m IH]; intros k H; [lia|]. destruct k as [|k]; [reflexivity|]. cbn [repeat nth]. apply IH. lia.
+Qed.
 End SetNth.
 
 (* ---------- emulator lemmas: delete / insert lines in the text region [0, h) of a screen
@@ -102,6 +116,17 @@ Proof.
   rewrite !app_length, !firstn_length, repeat_length, !skipn_length. lia.
 Qed.
 End EmuLemmas.
+
+Lemma emu_delete_lines (A : Type) (blank : A) h r n (text rest : list A) :
+  length text = h -> r < h ->
+  del_lines blank 0 h r n (text ++ rest) =
+  (firstn r text ++ skipn (r + Nat.min n (h - r)) text ++ repeat blank (Nat.min n (h - r))) ++ rest.
+Proof. intros. rewrite del_lines_region by assumption. rewrite del_lines_spec by assumption. reflexivity. Qed.
+Lemma emu_insert_lines (A : Type) (blank : A) h r n (text rest : list A) :
+  length text = h -> r < h ->
+  ins_lines blank 0 h r n (text ++ rest) =
+  (firstn r text ++ repeat blank (Nat.min n (h - r)) ++ firstn (h - r - Nat.min n (h - r)) (skipn r text)) ++ rest.
+Proof. intros. rewrite ins_lines_region by assumption. rewrite ins_lines_spec by assumption. reflexivity. Qed.
 
 (* ---------- windows ---------- *)
 Section Scroll.
@@ -325,3 +350,359 @@ Theorem sticky_left_refuted : exists xleft xcol cols ccol,
   1 <= cols /\ 0 <= xleft /\ 0 <= ccol <= xcol /\
   let l := fix_left xleft xcol cols in ~ (l <= ccol < l + cols) /\ term_col l cols ccol <> ccol - l.
 Proof. exists 49, 59, 20, 4. vm_compute. repeat split; try discriminate; intros [H1 H2]; apply H1; reflexivity. Qed.
+
+(* ---------- vi_drawfix ---------- *)
+Local Close Scope Z_scope.
+Section Fix.
+Variable R : Type.
+Variable blank : R.
+Notation win := (@win R).
+Notation term_room := (@term_room R blank).
+Notation draw_range := (@draw_range R).
+Notation drawfix := (@drawfix R blank).
+
+Lemma draw_range_nth f xtop h a cnt rows k d : length rows = h -> xtop <= a -> a + cnt <= xtop + h -> k < h ->
+  nth k (draw_range f xtop h a cnt rows) d =
+  if (a - xtop <=? k) && (k <? a - xtop + cnt) then f (xtop + k) else nth k rows d.
+Proof.
+  intros L Ha Hb Hk. rewrite draw_range_spec by assumption.
+  assert (Lf : length (firstn (a - xtop) rows) = a - xtop) by (rewrite firstn_length; lia).
+  destruct (a - xtop <=? k) eqn:E1; cbn [andb].
+  - apply Nat.leb_le in E1. rewrite app_nth2 by lia. rewrite Lf.
+    destruct (k <? a - xtop + cnt) eqn:E2.
+    + apply Nat.ltb_lt in E2. rewrite app_nth1 by (rewrite win_length; lia).
+      rewrite win_nth by lia. f_equal. lia.
+    + apply Nat.ltb_ge in E2. rewrite app_nth2 by (rewrite win_length; lia). rewrite win_length.
+      rewrite nth_skipn'. f_equal. lia.
+  - apply Nat.leb_gt in E1. rewrite app_nth1 by lia.
+    rewrite <- (firstn_skipn (a - xtop) rows) at 2. rewrite app_nth1 by lia. reflexivity.
+Qed.
+
+(* rows above the terminal cursor are not touched by term_room *)
+Lemma term_room_nth_above h m r rows k d : length rows = h -> k < r ->
+  nth k (term_room h m r rows) d = nth k rows d.
+Proof.
+  intros L Hk.
+  assert (F : r < h -> forall (l : list R), nth k (firstn r rows ++ l) d = nth k rows d).
+  { intros Hr l. rewrite app_nth1 by (rewrite firstn_length; lia).
+    rewrite <- (firstn_skipn r rows) at 2. rewrite app_nth1 by (rewrite firstn_length; lia). reflexivity. }
+  unfold DrawDefs.term_room, del_lines, ins_lines.
+  destruct ((0 <=? r) && (r <? h)) eqn:E.
+  - apply andb_true_iff in E. destruct E as [_ E]. apply Nat.ltb_lt in E.
+    destruct (m <? 0)%Z; [apply F; exact E|]. destruct (0 <? m)%Z; [apply F; exact E|reflexivity].
+  - destruct (m <? 0)%Z; [reflexivity|]. destruct (0 <? m)%Z; reflexivity.
+Qed.
+(* IL m at row r, seen row by row *)
+Lemma term_room_ins_nth h m r rows k d : length rows = h -> r < h -> k < h -> 0 < m -> r + m <= h ->
+  nth k (term_room h (Z.of_nat m) r rows) d =
+  if k <? r then nth k rows d else if k <? r + m then blank else nth (k - m) rows d.
+Proof.
+  intros L Hr Hk Hm Hrm. unfold DrawDefs.term_room.
+  replace (Z.of_nat m <? 0)%Z with false by lia. replace (0 <? Z.of_nat m)%Z with true by lia.
+  rewrite Nat2Z.id. rewrite (ins_lines_spec blank h r m rows L Hr).
+  replace (Nat.min m (h - r)) with m by lia.
+  assert (Lf : length (firstn r rows) = r) by (rewrite firstn_length; lia).
+  destruct (k <? r) eqn:E1.
+  - apply Nat.ltb_lt in E1. rewrite app_nth1 by lia.
+    rewrite <- (firstn_skipn r rows) at 2. rewrite app_nth1 by lia. reflexivity.
+  - apply Nat.ltb_ge in E1. rewrite app_nth2 by lia. rewrite Lf.
+    destruct (k <? r + m) eqn:E2.
+    + apply Nat.ltb_lt in E2. rewrite app_nth1 by (rewrite repeat_length; lia).
+      apply nth_repeat'. lia.
+    + apply Nat.ltb_ge in E2. rewrite app_nth2 by (rewrite repeat_length; lia). rewrite repeat_length.
+      rewrite nth_firstn' by lia. rewrite nth_skipn'. f_equal. lia.
+Qed.
+
+(* what the two loops of vi_drawfix leave: every row from r1c on when lines were removed (dneg),
+   otherwise the n rows from r1c *)
+Lemma fix_loops_nth f W h r1c n (dneg : bool) X k d : length X = h -> W <= r1c < W + h -> k < h ->
+  nth k (draw_range f W h r1c (Nat.min n (W + h - r1c))
+           (if dneg && (r1c + n <? W + h) then draw_range f W h (r1c + n) (W + h - (r1c + n)) X else X)) d =
+  if (r1c - W <=? k) && ((k <? r1c - W + n) || dneg) then f (W + k) else nth k X d.
+Proof.
+  intros L Hr Hk.
+  rewrite draw_range_nth; [|destruct (dneg && _); [rewrite draw_range_length|]; exact L|lia|lia|exact Hk].
+  destruct (r1c - W <=? k) eqn:E1; cbn [andb].
+  2:{ destruct (dneg && (r1c + n <? W + h)) eqn:E2; [|reflexivity].
+      apply andb_true_iff in E2. destruct E2 as [_ E2]. apply Nat.ltb_lt in E2. apply Nat.leb_gt in E1.
+      rewrite draw_range_nth by lia. replace (r1c + n - W <=? k) with false by lia. reflexivity. }
+  apply Nat.leb_le in E1.
+  destruct (k <? r1c - W + Nat.min n (W + h - r1c)) eqn:E2.
+  - apply Nat.ltb_lt in E2. replace (k <? r1c - W + n) with true by lia. reflexivity.
+  - apply Nat.ltb_ge in E2. replace (k <? r1c - W + n) with false by lia. cbn [orb].
+    destruct dneg; cbn [andb]; [|reflexivity].
+    destruct (r1c + n <? W + h) eqn:E3; [|apply Nat.ltb_ge in E3; lia].
+    apply Nat.ltb_lt in E3. rewrite draw_range_nth by lia.
+    replace (r1c + n - W <=? k) with true by lia. replace (k <? r1c + n - W + (W + h - (r1c + n))) with true by lia.
+    reflexivity.
+Qed.
+End Fix.
+
+Section Fix2.
+Variable R : Type.
+Variable blank : R.
+Notation win := (@win R).
+Notation term_room := (@term_room R blank).
+Notation draw_range := (@draw_range R).
+Notation drawfix := (@drawfix R blank).
+
+(* where the replaced lines r1 .. e-1 (n new lines) may lie for the partial redraw to be exact:
+   the change starts inside the window (a pure insertion not on its first row), or starts above
+   it and removes lines, or lies wholly below it (and is not a no-op) *)
+Definition fix_pre (W h r1 e n : nat) : Prop :=
+  (W <= r1 < W + h /\ (r1 < e \/ W < r1))
+  \/ (r1 < W /\ n < e - r1)
+  \/ (W + h <= r1 /\ (1 <= n \/ r1 < e)).
+
+Lemma drawfix_length f W h r1 r2 n rows : length rows = h -> length (drawfix f W h r1 r2 n rows) = h.
+Proof.
+  intro L. unfold DrawDefs.drawfix. cbv zeta. rewrite draw_range_length.
+  destruct (_ && _); [rewrite draw_range_length|]; apply term_room_length; exact L.
+Qed.
+
+(* old, new: what vi_drawrow draws for each absolute row before / after the edit.  Rows below r1
+   are untouched, the rows from e on moved to r1 + n on. *)
+Theorem drawfix_is_repaint old new W h r1 e n :
+  1 <= h -> r1 <= e ->
+  (forall i, i < r1 -> new i = old i) ->
+  (forall k, new (r1 + n + k) = old (e + k)) ->
+  fix_pre W h r1 e n ->
+  drawfix new W h (Z.of_nat r1) (Z.of_nat e - 1) (Z.of_nat n) (win old W h) = win new W h.
+Proof.
+  intros Hh Hre S1 S2 Pre.
+  apply (win_pointwise R new W h _ blank); [apply drawfix_length, win_length|].
+  intros k Hk. unfold DrawDefs.drawfix. cbv zeta.
+  set (r1c := Nat.min (Nat.max r1 W) (W + h - 1)).
+  replace (clampZ (Z.of_nat r1) (Z.of_nat W) (Z.of_nat W + Z.of_nat h - 1)) with (Z.of_nat r1c)
+    by (unfold clampZ, r1c; lia).
+  set (room := (Z.of_nat r1c - clampZ (Z.of_nat e - 1) (Z.of_nat W) (Z.of_nat W + Z.of_nat h - 1) - 1 + Z.of_nat n)%Z).
+  set (dneg := n <? e - r1).
+  replace ((Z.of_nat n - (Z.of_nat e - 1 - Z.of_nat r1 + 1) <? 0)%Z) with dneg by (unfold dneg; lia).
+  replace ((Z.of_nat r1c + Z.of_nat n <? Z.of_nat W + Z.of_nat h)%Z) with (r1c + n <? W + h) by lia.
+  replace (Z.to_nat (Z.of_nat r1c - Z.of_nat W)) with (r1c - W) by lia.
+  replace (Z.to_nat (Z.of_nat r1c + Z.of_nat n)) with (r1c + n) by lia.
+  replace (Z.to_nat (Z.of_nat W + Z.of_nat h - (Z.of_nat r1c + Z.of_nat n))) with (W + h - (r1c + n)) by lia.
+  replace (Z.to_nat (Z.of_nat r1c)) with r1c by lia.
+  replace (Z.to_nat (Z.min (Z.of_nat n) (Z.of_nat W + Z.of_nat h - Z.of_nat r1c))) with (Nat.min n (W + h - r1c)) by lia.
+  assert (Hr1c : W <= r1c < W + h) by (unfold r1c; lia).
+  rewrite fix_loops_nth; [|apply term_room_length, win_length|exact Hr1c|exact Hk].
+  destruct ((r1c - W <=? k) && ((k <? r1c - W + n) || dneg)) eqn:C; [reflexivity|].
+  destruct (lt_dec k (r1c - W)) as [Hlt|Hge].
+  - (* above the first touched row *)
+    rewrite term_room_nth_above by (try apply win_length; exact Hlt).
+    rewrite win_nth by exact Hk. symmetry. apply S1. unfold r1c in Hlt. lia.
+  - (* below the n redrawn rows, no lines removed: the rows were moved by insert-line *)
+    assert (Hk2 : r1c - W + n <= k /\ dneg = false).
+    { replace (r1c - W <=? k) with true in C by lia. cbn [andb] in C.
+      apply orb_false_iff in C. destruct C as [C1 C2]. apply Nat.ltb_ge in C1. split; assumption. }
+    destruct Hk2 as [Hk2 Hd]. unfold dneg in Hd. apply Nat.ltb_ge in Hd.
+    assert (Hin : W <= r1 < W + h /\ (r1 < e \/ W < r1)).
+    { destruct Pre as [P|[P|P]]; [exact P| |]; unfold r1c in *; lia. }
+    assert (Er : r1c = r1) by (unfold r1c; lia). rewrite Er in *.
+    set (m := n - (e - r1)).
+    assert (Hroom : room = Z.of_nat m).
+    { unfold room, m. rewrite Er. unfold clampZ. lia. }
+    rewrite Hroom.
+    replace (W + k) with (r1 + n + (W + k - r1 - n)) by lia. rewrite S2.
+    destruct (Nat.eq_dec m 0) as [Hm|Hm].
+    + rewrite Hm. unfold DrawDefs.term_room. cbn. rewrite win_nth by exact Hk. f_equal. unfold m in Hm. lia.
+    + rewrite term_room_ins_nth by (try apply win_length; unfold m in *; lia).
+      replace (k <? r1 - W) with false by lia. replace (k <? r1 - W + m) with false by (unfold m; lia).
+      rewrite win_nth by lia. f_equal. unfold m. lia.
+Qed.
+
+(* the same for buffers as lists of lines and a row image that depends on the line alone
+   (img None = the filler): the edit is the splice of `ins` for lines r1 .. e-1 *)
+Corollary drawfix_splice_is_repaint (line : Type) (img : option line -> R) (buf ins : list line) W h r1 e :
+  1 <= h -> r1 <= e -> e <= length buf ->
+  fix_pre W h r1 e (length ins) ->
+  let f (b : list line) := fun i => img (nth_error b i) in
+  drawfix (f (firstn r1 buf ++ ins ++ skipn e buf)) W h (Z.of_nat r1) (Z.of_nat e - 1) (Z.of_nat (length ins))
+          (win (f buf) W h)
+  = win (f (firstn r1 buf ++ ins ++ skipn e buf)) W h.
+Proof.
+  intros Hh Hre He Pre f. apply drawfix_is_repaint; try assumption.
+  - intros i Hi. unfold f. f_equal. rewrite nth_error_app1 by (rewrite firstn_length; lia).
+    rewrite <- (firstn_skipn r1 buf) at 2. rewrite nth_error_app1 by (rewrite firstn_length; lia). reflexivity.
+  - intro k. unfold f. f_equal. rewrite nth_error_app2 by (rewrite firstn_length; lia).
+    rewrite firstn_length. replace (Nat.min r1 (length buf)) with r1 by lia.
+    rewrite nth_error_app2 by lia. replace (r1 + length ins + k - r1 - length ins) with k by lia.
+    clear. revert buf k. induction e as [|e' IH]; intros buf k; [reflexivity|].
+    destruct buf as [|x buf]; [destruct k; reflexivity|]. cbn [skipn plus nth_error]. apply IH.
+Qed.
+End Fix2.
+
+(* the call vi_change makes after a character-wise change on an empty buffer, vi_drawfix(0,-1,0,0)
+   (DESIGN.md section 9 row 19), is outside fix_pre and does damage a correct screen *)
+Theorem empty_change_refuted : exists (f : nat -> nat) h, 1 <= h /\
+  drawfix nat 0 f 0 h 0%Z (-1)%Z 0%Z (win nat f 0 h) <> win nat f 0 h.
+Proof. exists (fun i => S i), 3. split; [lia|]. vm_compute. discriminate. Qed.
+
+(* ---------- the redraw decision at the tail of vi() ---------- *)
+Section Tail.
+Variable R : Type.
+Variable blank : R.
+Notation win := (@win R).
+Notation drawrow := (@drawrow R).
+Notation draw_range := (@draw_range R).
+Notation drawupdate := (@drawupdate R blank).
+Notation drawagain := (@drawagain R).
+Notation redraw_tail := (@redraw_tail R blank).
+
+Lemma drawupdate_ext f m h otop xtop rows : (forall i, ~ (otop <= i < otop + h) -> f i = m i) ->
+  drawupdate f h otop xtop rows = drawupdate m h otop xtop rows.
+Proof.
+  intro H. unfold DrawDefs.drawupdate. destruct (otop =? xtop); [reflexivity|].
+  destruct (otop <? xtop) eqn:L.
+  - apply Nat.ltb_lt in L. apply draw_range_ext. intros i Hi. apply H. lia.
+  - apply Nat.ltb_ge in L. apply draw_range_ext. intros i Hi. apply H. lia.
+Qed.
+
+(* g: the row images the screen shows before the tail (at the old top), f: the images now.
+   A full redraw needs nothing; the one-line redraw and the scroll path need the images to agree
+   except on the old and the new cursor line (which is where `hll` changes them). *)
+Theorem tail_is_repaint g f h (mr mw lc hll : bool) otop xtop orow xrow :
+  xtop <= xrow < xtop + h ->
+  (if mr || mw || lc
+   then (if mr && negb lc && (xtop =? otop) then forall i, i <> xrow -> i <> orow -> f i = g i else True)
+   else forall i, (hll = true /\ xrow <> orow -> i <> xrow /\ i <> orow) -> f i = g i) ->
+  redraw_tail f h mr mw lc hll otop xtop orow xrow (win g otop h) = win f xtop h.
+Proof.
+  intros Hx Hyp. unfold DrawDefs.redraw_tail. destruct (mr || mw || lc) eqn:M.
+  - destruct (mr && negb lc && (xtop =? otop)) eqn:LO.
+    + apply andb_true_iff in LO. destruct LO as [_ E]. apply Nat.eqb_eq in E. subst otop.
+      apply (win_pointwise R f xtop h _ blank).
+      { destruct (negb (xrow =? orow)); unfold DrawDefs.drawagain; rewrite ?drawrow_length; apply win_length. }
+      intros k Hk. unfold DrawDefs.drawagain.
+      destruct (xrow =? orow) eqn:E; cbn [negb].
+      * apply Nat.eqb_eq in E. rewrite drawrow_nth by apply win_length. rewrite win_nth by exact Hk.
+        destruct ((xtop <=? xrow) && (xrow <? xtop + h) && (k =? xrow - xtop)) eqn:C.
+        -- apply andb_true_iff in C. destruct C as [_ C]. apply Nat.eqb_eq in C. f_equal. lia.
+        -- symmetry. apply Hyp; subst orow; intro; subst xrow;
+           replace (xtop <=? xtop + k) with true in C by lia; replace (xtop + k <? xtop + h) with true in C by lia;
+           replace (k =? xtop + k - xtop) with true in C by lia; discriminate.
+      * apply Nat.eqb_neq in E. rewrite !drawrow_nth by (rewrite ?drawrow_length; apply win_length).
+        rewrite win_nth by exact Hk.
+        destruct ((xtop <=? orow) && (orow <? xtop + h) && (k =? orow - xtop)) eqn:C1.
+        { apply andb_true_iff in C1. destruct C1 as [C0 C1]. apply andb_true_iff in C0. destruct C0 as [C2 C3].
+          apply Nat.eqb_eq in C1. apply Nat.leb_le in C2. f_equal. lia. }
+        destruct ((xtop <=? xrow) && (xrow <? xtop + h) && (k =? xrow - xtop)) eqn:C2.
+        { apply andb_true_iff in C2. destruct C2 as [_ C2]. apply Nat.eqb_eq in C2. f_equal. lia. }
+        symmetry. apply Hyp.
+        -- intro; subst xrow. replace (xtop <=? xtop + k) with true in C2 by lia.
+           replace (xtop + k <? xtop + h) with true in C2 by lia. replace (k =? xtop + k - xtop) with true in C2 by lia. discriminate.
+        -- intro; subst orow. replace (xtop <=? xtop + k) with true in C1 by lia.
+           replace (xtop + k <? xtop + h) with true in C1 by lia. replace (k =? xtop + k - xtop) with true in C1 by lia. discriminate.
+    + apply drawagain_all, win_length.
+  - (* scroll path *)
+    set (m := fun i => if (otop <=? i) && (i <? otop + h) then g i else f i).
+    assert (Hm1 : win g otop h = win m otop h).
+    { apply win_ext. intros i Hi. unfold m. replace ((otop <=? i) && (i <? otop + h)) with true by lia. reflexivity. }
+    assert (Hm2 : forall i, ~ (otop <= i < otop + h) -> f i = m i).
+    { intros i Hi. unfold m. replace ((otop <=? i) && (i <? otop + h)) with false by lia. reflexivity. }
+    assert (Hrows : (if negb (xtop =? otop) then drawupdate f h otop xtop (win g otop h) else win g otop h) = win m xtop h).
+    { destruct (xtop =? otop) eqn:E; cbn [negb].
+      - apply Nat.eqb_eq in E. subst. exact Hm1.
+      - rewrite Hm1, (drawupdate_ext f m h otop xtop _ Hm2). apply drawupdate_is_repaint. }
+    rewrite Hrows. clear Hrows.
+    assert (Hfm : forall i, (hll = true /\ xrow <> orow -> i <> xrow /\ i <> orow) -> m i = f i).
+    { intros i Hi. unfold m. destruct ((otop <=? i) && (i <? otop + h)); [|reflexivity]. symmetry. apply Hyp, Hi. }
+    apply (win_pointwise R f xtop h _ blank).
+    { repeat match goal with |- context [if ?b then _ else _] => destruct b end; rewrite ?drawrow_length; apply win_length. }
+    intros k Hk.
+    destruct (hll && negb (xrow =? orow)) eqn:H1.
+    + apply andb_true_iff in H1. destruct H1 as [Hh H1]. subst hll. apply negb_true_iff in H1. apply Nat.eqb_neq in H1.
+      cbn [andb]. rewrite drawrow_nth by (destruct (_ && _); rewrite ?drawrow_length; apply win_length).
+      destruct ((xtop <=? xrow) && (xrow <? xtop + h) && (k =? xrow - xtop)) eqn:C2.
+      { apply andb_true_iff in C2. destruct C2 as [_ C2]. apply Nat.eqb_eq in C2. f_equal. lia. }
+      assert (Nx : xtop + k <> xrow).
+      { intro; subst xrow. replace (xtop <=? xtop + k) with true in C2 by lia.
+        replace (xtop + k <? xtop + h) with true in C2 by lia. replace (k =? xtop + k - xtop) with true in C2 by lia. discriminate. }
+      destruct ((xtop <=? orow) && (orow <? xtop + h)) eqn:C1.
+      * rewrite drawrow_nth by apply win_length. rewrite C1. cbn [andb].
+        destruct (k =? orow - xtop) eqn:C3.
+        { apply Nat.eqb_eq in C3. apply andb_true_iff in C1. destruct C1 as [C1 _]. apply Nat.leb_le in C1. f_equal. lia. }
+        apply Nat.eqb_neq in C3. rewrite win_nth by exact Hk. apply Hfm. intros _. split; [exact Nx|].
+        apply andb_true_iff in C1. destruct C1 as [C1 _]. apply Nat.leb_le in C1. lia.
+      * rewrite win_nth by exact Hk. apply Hfm. intros _. split; [exact Nx|]. intro; subst orow.
+        replace (xtop <=? xtop + k) with true in C1 by lia. replace (xtop + k <? xtop + h) with true in C1 by lia. discriminate.
+    + (* nothing else is drawn: either no highlight, or the cursor line did not change *)
+      cbn [andb].
+      rewrite win_nth by exact Hk. apply Hfm. intros [Hh Hne]. subst hll. cbn [andb] in H1.
+      apply negb_false_iff in H1. apply Nat.eqb_eq in H1. contradiction.
+Qed.
+End Tail.
+
+(* ---------- the command loop ---------- *)
+Section Loop.
+Variable R : Type.
+Variable blank : R.
+Variable h : nat.
+Notation win := (@win R).
+
+(* what the terminal shows and where the editor thinks the window and the cursor line are *)
+Record vstate := mkV { s_f : nat -> R; s_top : nat; s_row : nat; s_scr : list R }.
+Definition coherent (s : vstate) : Prop :=
+  s_scr s = win (s_f s) (s_top s) h /\ s_top s <= s_row s < s_top s + h.
+
+(* one iteration of the loop of vi(): the command body leaves the screen c_scr1 (it may have
+   called vi_drawfix itself), the row images c_f, the redraw class (mod, xleft != oleft), the top
+   the tail compares against (c_otop: the top before the command, or after its body when it
+   returned VC_OK) and, after vi_wfix, the top c_top and cursor line c_row *)
+Record step := mkS { c_f : nat -> R; c_g : nat -> R; c_otop : nat; c_top : nat; c_row : nat;
+                     c_scr1 : list R; c_mr : bool; c_mw : bool; c_lc : bool; c_hll : bool }.
+Definition do_step (s : vstate) (c : step) : vstate :=
+  mkV (c_f c) (c_top c) (c_row c)
+      (redraw_tail R blank (c_f c) h (c_mr c) (c_mw c) (c_lc c) (c_hll c) (c_otop c) (c_top c) (s_row s) (c_row c) (c_scr1 c)).
+Fixpoint run_steps (s : vstate) (cs : list step) : vstate :=
+  match cs with [] => s | c :: r => run_steps (do_step s c) r end.
+
+(* the contract of a command body: what it leaves on the screen is a repaint (at c_otop) of row
+   images c_g that differ from the final ones only where the tail redraws *)
+Definition step_ok (s : vstate) (c : step) : Prop :=
+  c_scr1 c = win (c_g c) (c_otop c) h /\
+  c_top c <= c_row c < c_top c + h /\
+  (if c_mr c || c_mw c || c_lc c
+   then (if c_mr c && negb (c_lc c) && (c_top c =? c_otop c)
+         then forall i, i <> c_row c -> i <> s_row s -> c_f c i = c_g c i else True)
+   else forall i, (c_hll c = true /\ c_row c <> s_row s -> i <> c_row c /\ i <> s_row s) -> c_f c i = c_g c i).
+Inductive steps_ok : vstate -> list step -> Prop :=
+| steps_nil s : steps_ok s []
+| steps_cons s c r : step_ok s c -> steps_ok (do_step s c) r -> steps_ok s (c :: r).
+
+Theorem loop_coherent s cs : coherent s -> steps_ok s cs -> coherent (run_steps s cs).
+Proof.
+  intros Hs H. induction H as [s|s c r [H1 [H2 H3]] _ IH]; [exact Hs|].
+  cbn [run_steps]. apply IH. unfold coherent, do_step. cbn [s_scr s_f s_top s_row]. split; [|exact H2].
+  rewrite H1. apply tail_is_repaint; assumption.
+Qed.
+
+(* two ways to meet the contract.  A motion or scroll: the body draws nothing and changes no line
+   (with `hll` the images of the old and new cursor line change). *)
+Lemma motion_step_ok s c : coherent s ->
+  c_scr1 c = s_scr s -> c_g c = s_f s -> c_otop c = s_top s ->
+  c_mr c = false -> c_mw c = false -> c_lc c = false ->
+  c_top c <= c_row c < c_top c + h ->
+  (forall i, (c_hll c = true /\ c_row c <> s_row s -> i <> c_row c /\ i <> s_row s) -> c_f c i = s_f s i) ->
+  step_ok s c.
+Proof.
+  intros [Hs _] E1 E2 E3 M1 M2 M3 Hw Hf. unfold step_ok. rewrite E1, E2, E3, M1, M2, M3. cbn [orb].
+  split; [exact Hs|]. split; [exact Hw|exact Hf].
+Qed.
+(* An edit that replaces lines r1 .. e-1 by n lines, repaired by vi_drawfix(r1, e-1, n, 0) under
+   fix_pre, returning VC_OK (no highlight of the current line) *)
+Lemma drawfix_step_ok s c r1 e n : coherent s -> 1 <= h -> r1 <= e ->
+  (forall i, i < r1 -> c_f c i = s_f s i) ->
+  (forall k, c_f c (r1 + n + k) = s_f s (e + k)) ->
+  fix_pre (s_top s) h r1 e n ->
+  c_scr1 c = drawfix R blank (c_f c) (s_top s) h (Z.of_nat r1) (Z.of_nat e - 1) (Z.of_nat n) (s_scr s) ->
+  c_g c = c_f c -> c_otop c = s_top s ->
+  c_mr c = false -> c_mw c = false -> c_lc c = false -> c_hll c = false ->
+  c_top c <= c_row c < c_top c + h ->
+  step_ok s c.
+Proof.
+  intros [Hs _] Hh Hre S1 S2 Pre E1 E2 E3 M1 M2 M3 M4 Hw. unfold step_ok.
+  rewrite E1, E2, E3, M1, M2, M3, M4, Hs. cbn [orb]. split; [|split; [exact Hw|reflexivity]].
+  apply drawfix_is_repaint; assumption.
+Qed.
+End Loop.
